@@ -13,6 +13,23 @@ PROPS = {
                      "so concurrent histories are linearizable with the sequential semantics proved here",
                      "capacity >= 1 and PopN argument >= 0 (the only caller passes 4096)"],
     ),
+    "C15": dict(
+        lean_modules=["HW.Props.C15"],
+        streams=[dict(name="wire", pkg="remote", test="TestVerifWire", shrink_key="batch")],
+        rule="wire: every batch of length <= 2 over {nil,split-colliding senders} x {split-colliding targets} x {good, unserialisable, non-proto payloads} "
+             "(exhaustive) plus seeded random batches (length 1..12, pools of 8 PIDs incl. address/id split collisions, 10 payloads of 4 registered types, "
+             "2 unserialisable, 2 non-proto); non-trivial = batch length >= 2; distinct = distinct input lines",
+        assumptions=["protobuf/vtproto/drpc byte encoding of Envelope and payloads is not modelled (Codec parameter with the round-trip law as an explicit field)"],
+    ),
+    "C16": dict(
+        lean_modules=["HW.Props.C16"],
+        streams=[dict(name="hostile", pkg="remote", test="TestVerifHostile", shrink_key="msgs")],
+        rule="hostile: generated Envelope values (each index independently valid / -1 / len / len+k / int32 extremes, empty tables, unknown and empty type names, "
+             "undecodable payload bytes) marshalled with the real encoder, one third additionally byte-mutated, unmarshalled with the real decoder and fed to the "
+             "real streamReader; non-trivial = at least one message; distinct = distinct decoded envelopes",
+        assumptions=["payload deserialisation success is an oracle measured by calling the real deserialiser (input to the model)",
+                     "byte strings rejected by the Envelope decoder never reach the reader (drpc closes the stream)"],
+    ),
 }
 
 # Properties without a check yet are listed here (kept current; see DESIGN.md section 7).
@@ -29,5 +46,22 @@ MANIFEST_TEXT = {
         note="Trusted: Lean kernel; axioms propext/Quot.sound only; sync.Mutex mutual exclusion and sync/atomic semantics (linearizability argument rests on the lock-shape fact, "
              "not on a fine-grained concurrent model); the correspondence harness and generators; int64 overflow and capacity 0 / negative PopN are outside the claim.",
         technique="Lean 4 refinement proof (invariant + induction over op sequences) + differential correspondence against the Go code",
+    ),
+    "C15": dict(
+        text="Machine-checked round trip: for every codec satisfying the payload law and every batch, decode(encode batch) is exactly the sendable "
+             "messages in order, each with its own target, payload and sender, none staying none (HW.C15.roundtrip; bad_message_isolated). Tied to the code by "
+             "running the real streamWriter.Invoke -> real drpc encoding -> real streamReader.Receive on exhaustive small and seeded random batches and comparing "
+             "envelope tables and deliveries with the model, plus the spec monitor on the implementation's deliveries.",
+        design_ref="DESIGN.md section 4, C15",
+        note="Trusted: Lean kernel, propext/Quot.sound/Classical.choice; protobuf/drpc byte encoding and TCP are not modelled; harness pools bound what the correspondence sees.",
+        technique="Lean 4 proof of encode/decode round-trip (lookup-table invariant, induction over the batch) + differential correspondence",
+    ),
+    "C16": dict(
+        text="The reader is modelled as a total function decode : Envelope -> deliveries x {ok, err}; theorems: every delivery is justified by a message whose own "
+             "valid indices name its target, type and sender (only_addressed), out-of-range/negative indices never resolve, at most one delivery per message. "
+             "'Never panics' is carried by the correspondence: the real reader must agree with the total model on structure-aware hostile envelopes and byte-mutated wire forms.",
+        design_ref="DESIGN.md section 4, C16",
+        note="Trusted: Lean kernel; the Envelope byte decoder (vtproto) is exercised, not modelled; deserialisation success is an oracle input.",
+        technique="Lean 4 total-function model + justification theorem + differential correspondence on hostile envelopes",
     ),
 }
